@@ -19,6 +19,14 @@ def build_cases(rng, tier):
         if i % 3 == 0:
             focus = {'eof', 'post'} | ({'stack'} if i % 2 else set())
         c = streamprog.gen_stream_case(r, "w%d" % i, focus, backend=be, flex_opts=opts, nsources=r.pick([1, 2, 3, 4]))
+        if be == 'cxx' and i % 2 == 0:
+            # the C++ class reading every source (those supplied by yywrap and those given after termination) through ONE stream
+            # object that is refilled after it ran dry
+            if c.get('runs'):
+                for rn in c['runs']:
+                    rn['mode'] = 'm'
+            else:
+                c['runs'] = [{'sessions': [srcs], 'mode': 'm'} for srcs in c['sources']]
         cases.append(c)
     return cases
 
